@@ -132,6 +132,9 @@ template <int S> struct Runner {
     if (D > 1) { Prob a = p; for (int i = 0; i <= N; ++i) a.P(i, 0) += 4194304.0; Prob b = a; b.P((N + 1) / 2, D - 1) += 2.384185791015625e-07;
       run_problem(b, false, &a, 1); run_problem(b, false, &a, 2);
       Prob b2 = a; b2.bc.start_velocity(D - 1) += 2.384185791015625e-07; b2.bc.end_velocity(D - 1) -= 2.384185791015625e-07; run_problem(b2, false, &a, 1); }
+    // ... and from a fit in which every coordinate but the last is identically zero (planar / hovering axes): whatever an all-zero axis leaves
+    // behind in its 1-D object (flags, skipped factorisations) must not survive the re-fit with generic data (seeded changes C13-m9 / C13-m10)
+    run_problem(p, false, &z, 1); if (D > 1) run_problem(p, true, &z, 2);
     { Spl<S, D> sz = build<S, D>(z); const auto &C = sz.getTrajectory().getCoefficients(); ++c.st.comparisons; for (int d = 0; d + 1 < D; ++d) if (C.col(d).cwiseAbs().maxCoeff() != 0.0) { fail("cross-talk", z, fmt("coordinate %d has non-zero coefficients although only coordinate %d has data", d, D - 1)); break; } }
   }
 };
